@@ -182,7 +182,7 @@ impl Prop for C01 {
         "(a) every published key code x 8 modifier patterns, from idle and from a one-character composition, each followed by one of {finish, commit, ctrl-backspace, backspace}, under a pairwise-covering set of the 11 options (quick) / all 2048 option masks (thorough) x 3 layouts, options switched with update_engine on the idle context; \
          (b) every history of length <= 3 (quick) / 4 (thorough) over a 16-event alphabet per method (keypad Enter/Equals, reph key, vowel sign, hasanta, unassigned key, : ) ` \\, backspace, ctrl-backspace, commit of the highlighted index, commit of another index, finish) under 5 corner configurations, \
          the learned-selection file persisting across histories; (c) random histories of <= 64 events over all 111 keys with arbitrary modifier and selection bytes, commits inside the list on screen, update_engine (any layout/options) while idle and context restarts over the same user directory; \
-         (d) long compositions: one letter / one Avro pattern repeated to 256 characters with suggestions on (20 s CPU budget per call) and to 2300 characters (thorough; 120 s budget). \
+         (e) every ordered pair of the 111 published keys followed by a third key, a backspace, the second key again and a commit or finish, under two corner configurations per layout; (d) long compositions: one letter / one Avro pattern repeated to 256 characters with suggestions on (20 s CPU budget per call) and to 2300 characters (thorough; 120 s budget). \
          distinct_nontrivial = distinct (configuration, event kind, rendered result) triples observed."
             .into()
     }
@@ -305,6 +305,41 @@ impl Prop for C01 {
                         }
                     }
                     out.distinct(fnv_str(&["b", &spec.short(), &first.to_string()]));
+                }
+            }
+        }
+
+        // ---- (e) every ordered pair of published keys (then a third key, backspaces and a commit), two corner configurations per layout
+        for lay in Lay::ALL {
+            let sg = if lay.is_fixed() { O_FSUGG } else { O_PSUGG };
+            for spec in [CfgSpec::new(lay, sg | O_ENG | O_SQ | O_NUMPAD | O_VOWEL | O_KARORDER), CfgSpec::new(lay, O_ALL & !O_ANSI & !O_KARORDER)] {
+                let mut ex: Option<Exec> = None;
+                for (i, k1) in keys().iter().enumerate() {
+                    let mine = env.mine(item);
+                    item += 1;
+                    if !mine {
+                        continue;
+                    }
+                    if ex.as_ref().map_or(true, |e| e.dead) {
+                        ex = Exec::new(spec, &root).ok();
+                        t.contexts += 1;
+                    }
+                    let Some(e) = ex.as_mut() else { break };
+                    let mut evs: Vec<Ev> = Vec::with_capacity(keys().len() * 8);
+                    for (j, k2) in keys().iter().enumerate() {
+                        let k3 = &keys()[(i * 7 + j * 13) % keys().len()];
+                        let alt = if (i + j) % 5 == 0 { 2 } else { 0 };
+                        evs.push(Ev::Key(k1.code, 0, 0xFF));
+                        evs.push(Ev::Key(k2.code, alt, 0xFF));
+                        evs.push(Ev::Key(k3.code, 0, 0xFF));
+                        evs.push(Ev::Bs);
+                        evs.push(Ev::Key(k2.code, 0, 0xFF));
+                        evs.push(if j % 2 == 0 { Ev::Commit(usize::MAX) } else { Ev::Finish });
+                        evs.push(Ev::Finish);
+                    }
+                    out.begin_case(|| trace_json(&spec, &nofiles, &evs));
+                    run_events(e, &nofiles, &evs, BUDGET_MS, out, &mut t);
+                    out.distinct(fnv_str(&["e", &spec.short(), k1.name]));
                 }
             }
         }
